@@ -584,4 +584,93 @@ example :
     ensureTrack 1000 3 12 1000 10 = none ∧ ensureTrack 1000 3 20 990 0 = none := by decide
 
 end runner
+
+/-! ## 4. obligations over facts regenerated from the Go source -/
+section facts
+
+/-- how a field of a recycled object gets its value before a call can read it -/
+inductive ResetBy where
+  | constant        -- set when the object is created for this Regexp, never assigned again
+  | byPut           -- assigned by `putRunner` (and by the entry points that select the bool-only program)
+  | byScan          -- assigned unconditionally at the top of `scan`
+  | byInitMatch     -- assigned by `initMatch` (positions to the ends / new result object / `reset`)
+  | capacityOnly    -- array whose cells above the position are dead; only its length survives
+                    --   (`ensureStorage_capacity_independent`)
+  | byWatch         -- assigned by `startTimeoutWatch` whenever timeouts are on; not read otherwise
+  | byExecuteEntry  -- interpreter scratch, overwritten by `goTo(0)` / `setOperator` (`goToZero_ignores_scratch`)
+  | byTidy          -- assigned by `tidy` / `tidyMatch` before the match is handed to anybody
+  | staleAboveCount -- array whose cells at or above `2*matchcount` are dead (`builder_never_reads_stale`)
+  | neverOnPooled   -- only assigned on matches that have left the runner (never on a recycled one)
+  deriving DecidableEq, Repr
+
+/-- every field of `Runner`, with the way the model accounts for it -/
+def expectedRunnerFields : List (String × ResetBy) := [
+  ("re", .constant), ("code", .byPut), ("debug", .byScan),
+  ("Runtextstart", .byScan), ("Runtext", .byScan), ("Runtextpos", .byScan), ("Runtextend", .byScan),
+  ("runtrack", .capacityOnly), ("Runtrackpos", .byInitMatch),
+  ("runstack", .capacityOnly), ("Runstackpos", .byInitMatch),
+  ("runcrawl", .capacityOnly), ("runcrawlpos", .byInitMatch),
+  ("runtrackcount", .constant), ("runmatch", .byInitMatch),
+  ("ignoreTimeout", .byScan), ("timeout", .byScan), ("deadline", .byWatch),
+  ("operator", .byExecuteEntry), ("codepos", .byExecuteEntry), ("rightToLeft", .byExecuteEntry),
+  ("caseInsensitive", .byExecuteEntry)]
+
+/-- every field of `Match` (the embedded `Group` stands for `Capture{text, RuneIndex, RuneLength}`,
+    `Name`, `Captures`) -/
+def expectedMatchFields : List (String × ResetBy) := [
+  ("Group", .byTidy), ("regex", .constant), ("otherGroups", .neverOnPooled), ("textpos", .byTidy),
+  ("textstart", .byInitMatch), ("capcount", .byTidy), ("sparseCaps", .constant),
+  ("matches", .staleAboveCount), ("matchcount", .byInitMatch), ("balancing", .byInitMatch)]
+
+/-- **Every field of the recycled objects is accounted for.**  The field lists of `Runner`, `Match`,
+    `Group`, `Capture`, `matchText` read from the Go source are exactly the ones the model was written
+    against (each annotated above with how it is reset).  A new field breaks this obligation until the
+    model says how it is reset. -/
+theorem fields_accounted :
+    Generated.runnerFields = expectedRunnerFields.map (·.1) ∧
+    Generated.matchFields = expectedMatchFields.map (·.1) ∧
+    Generated.groupFields = ["Capture", "Name", "Captures"] ∧
+    Generated.captureFields = ["text", "RuneIndex", "RuneLength"] ∧
+    Generated.matchTextFields = ["runes", "input", "hasStringInput", "byteOffsets", "byteOffsetsReady"] ∧
+    Generated.replacerDataCacheFields = ["mu", "maxSize", "ll", "cache"] ∧
+    Generated.replacerDataCacheEntryFields = ["key", "data"] ∧
+    Generated.pooledSliceBuffersFields = ["sizes", "pools"] := by decide
+
+def writersOf (tbl : List (String × List String)) (f : String) : List String :=
+  (tbl.lookup f).getD []
+
+/-- **The reset code assigns what the model says it assigns.**
+    `(*Match).reset` assigns `text`, `textstart`, every `matchcount[i]` and `balancing`;
+    `putRunner` assigns `Runtext`, `code` and the result object's `text`;
+    `scan` starts with the seven unconditional assignments the model's `scanInit` performs and resets
+    the three stack positions between attempts; `initMatch` assigns the result object and the six
+    stack fields.  And the fields the invariants rely on have no other writers: `runtrackcount` is
+    assigned only by `initTrackCount`, `runmatch` only by `initMatch`/`tidyMatch`, `Runtext` only by
+    `scan`/`putRunner`, `code` only by the four entry points that select the bool-only program and by
+    `putRunner`, `deadline` only by `startTimeoutWatch`, `Match.textstart` only by `reset`,
+    `Match.balancing` only by `balanceMatch`/`reset`/`tidy`/`compactBalancedMatches`. -/
+theorem reset_writes_expected :
+    Generated.matchResetWrites = ["m.text", "m.textstart", "m.matchcount[i]", "m.balancing"] ∧
+    Generated.putRunnerWrites = ["r.Runtext", "r.code", "r.runmatch.text"] ∧
+    Generated.scanWrites =
+      ["r.timeout", "r.ignoreTimeout", "r.debug", "r.Runtextstart", "r.Runtext", "r.Runtextend", "r.Runtextpos",
+       "r.Runtextpos", "r.Runtrackpos", "r.Runstackpos", "r.runcrawlpos", "r.Runtextpos"] ∧
+    Generated.initMatchWrites =
+      ["r.runmatch", "r.runmatch", "r.Runtrackpos", "r.Runstackpos", "r.runcrawlpos",
+       "r.runtrack", "r.Runtrackpos", "r.runstack", "r.Runstackpos", "r.runcrawl", "r.runcrawlpos"] ∧
+    writersOf Generated.runnerFieldWriters "runtrackcount" = ["runner.go:Runner.initTrackCount"] ∧
+    writersOf Generated.runnerFieldWriters "runmatch" = ["runner.go:Runner.initMatch", "runner.go:Runner.tidyMatch"] ∧
+    writersOf Generated.runnerFieldWriters "Runtext" = ["runner.go:Regexp.putRunner", "runner.go:Runner.scan"] ∧
+    writersOf Generated.runnerFieldWriters "code" =
+      ["regexp.go:Regexp.FindAllRunesIndex", "regexp.go:Regexp.FindAllStringIndex", "regexp.go:Regexp.matchStringAt",
+       "runner.go:Regexp.putRunner", "runner.go:Regexp.run"] ∧
+    writersOf Generated.runnerFieldWriters "deadline" = ["runner.go:Runner.startTimeoutWatch"] ∧
+    writersOf Generated.runnerFieldWriters "re" = [] ∧
+    writersOf Generated.matchFieldWriters "textstart" = ["match.go:Match.reset"] ∧
+    writersOf Generated.matchFieldWriters "balancing" =
+      ["match.go:Match.balanceMatch", "match.go:Match.reset", "match.go:Match.tidy", "replace.go:compactBalancedMatches"] ∧
+    writersOf Generated.matchFieldWriters "otherGroups" = ["match.go:Match.populateOtherGroups"] ∧
+    writersOf Generated.matchFieldWriters "regex" = [] := by decide
+
+end facts
 end RegexVerif.Props.C12
